@@ -354,6 +354,13 @@ func genC15(g *gen, tier string) *Scenario {
 	nkeys := nc * per
 	sc.Params["nkeys"] = int64(nkeys)
 	ttls := []int64{3600 * sec, 86400 * sec, 600 * sec}
+	sleepMax := 500
+	if g.pct(40) {
+		// deadlines that pass inside the run (in either tier), with sleeps long enough to cross them
+		ttls = append(ttls, 1*sec, 2*sec, 1*sec)
+		sleepMax = 3000
+		sc.Family += ",short-ttls"
+	}
 	for c := 0; c < nc; c++ {
 		var ops []Op
 		for n := g.rng(4, 24); n > 0; n-- {
@@ -375,7 +382,7 @@ func genC15(g *gen, tier string) *Scenario {
 			case x < 88:
 				ops = append(ops, Op{Kind: "del", Key: own})
 			default:
-				ops = append(ops, Op{Kind: "sleep", Dur: int64(g.rng(1, 500)) * ms})
+				ops = append(ops, Op{Kind: "sleep", Dur: int64(g.rng(1, sleepMax)) * ms})
 			}
 		}
 		sc.Clients = append(sc.Clients, ops)
@@ -470,17 +477,18 @@ func checkC15(rd *RunData) []Violation {
 		origin string
 		ok     bool
 		ambig  bool
+		inherit int64 // earliest deadline the latest value may have inherited (0: none)
 	}
 	lasts := map[int]*last{}
 	evs := map[int][]c06ev{}
 	for _, r := range recs {
 		if r.Client >= 0 && (r.Op.Kind == "set" || r.Op.Kind == "del") && r.Op.Key < nkeys && (r.Op.Kind == "del" || r.Ok) {
-			evs[r.Op.Key] = append(evs[r.Op.Key], c06ev{kind: r.Op.Kind, inv: r.Inv, ret: r.Ret, retT: r.RetT, ttl: r.Op.TTL, val: r.Val, ok: r.Err == "" && !r.Open})
+			evs[r.Op.Key] = append(evs[r.Op.Key], c06ev{kind: r.Op.Kind, inv: r.Inv, ret: r.Ret, invT: r.InvT, retT: r.RetT, ttl: r.Op.TTL, val: r.Val, ok: r.Err == "" && !r.Open})
 		}
 	}
 	for _, l := range rd.Loader {
 		if l.Outcome == "ok" && l.End != 0 && l.Start < dump.Inv {
-			evs[l.Key] = append(evs[l.Key], c06ev{kind: "load", inv: l.Start, ret: l.End, retT: l.EndT, ttl: l.TTL, val: l.Val, ok: true})
+			evs[l.Key] = append(evs[l.Key], c06ev{kind: "load", inv: l.Start, ret: l.End, invT: l.StartT, retT: l.EndT, ttl: l.TTL, val: l.Val, ok: true})
 		}
 	}
 	for k, es := range evs {
@@ -493,6 +501,19 @@ func checkC15(rd *RunData) []Violation {
 		}
 		e := es[len(es)-1]
 		la.val, la.ttl, la.retT, la.del, la.ok = e.val, e.ttl, e.retT, e.kind == "del", e.ok
+		// a write without TTL keeps the deadline of the entry it updates in place: the latest value
+		// may carry the deadline of any earlier write since the last Delete
+		for i := len(es) - 1; i >= 0 && es[i].kind != "del"; i-- {
+			if es[i].ttl > 0 && (la.inherit == 0 || es[i].retT+es[i].ttl < la.inherit) {
+				la.inherit = es[i].retT + es[i].ttl - 2*es[i].ttl/100 // earliest such deadline (minus slack for the call's duration)
+				if es[i].inv > 0 {
+					la.inherit = es[i].retT + es[i].ttl - (es[i].retT - es[i].invT)
+				}
+			}
+			if es[i].kind == "load" {
+				break // the loader only runs when the key is absent or expired: a load starts a fresh deadline
+			}
+		}
 		la.origin = e.kind
 		lasts[k] = la
 	}
@@ -516,9 +537,10 @@ func checkC15(rd *RunData) []Violation {
 		ttlc := "no-ttl"
 		if la.ttl > 0 {
 			ttlc = "ttl"
-			if endT+60*sec >= la.retT+la.ttl-60*sec { // close to its deadline: not decidable
-				continue
-			}
+		}
+		if la.inherit != 0 && endT+120*sec >= la.inherit { // it may be (close to) expired: not decidable
+			probe("c15.key-may-have-expired")
+			continue
 		}
 		cls := la.origin + "," + ttlc + "," + kind
 		probe("c15.key-checked")
